@@ -324,3 +324,59 @@ def run_ids_order(seed):
                                     f'the same `ids` {str(val)[:60]} under another digest: what one run stored the next does not find'})
             break
     return problems
+
+
+def run_dynamic_bracketings(seed):
+    """C07 (and C09): a dataset-wide layer (Filter / GroupBy) between transforms, the same four or five layers in every bracketing
+    of depth up to two (`a >> (b >> c)`, `a >> ((b >> c) >> d)`, `(a >> b) >> (c >> d)`, ...): the digests of `ids` and of a field
+    downstream, and the values, do not depend on the bracketing"""
+    from .pipeline import Builder
+    from .sym import SymWorld
+    rng = random.Random(seed)
+    world = SymWorld()
+    ids = [f'i{k}' for k in range(rng.randint(3, 5))]
+    src = {'k': 'source', 'cls': 'DS', 'ids': ids, 'fields': {'x': {'args': ['i'], 'f': 'DS.x'},
+                                                             'kk': {'args': ['i'], 'f': 'DS.kk', 'table': [[[i], 'gh'[n % 2]] for n, i in enumerate(ids)]}},
+           'params': {}, 'cargs': {}, 'defaults': {}}
+    t = {'k': 'transform', 'cls': 'DT', 'fields': {'m': {'args': ['kk'], 'f': 'DT.m', 'table': [[['g'], 'g'], [['h'], 'h']]}},
+         'params': {}, 'cargs': {}, 'defaults': {}, 'inherit': True}
+    # (a GroupBy cannot be built on a transform alone - it asserts a single input - so only the Filter is nested freely)
+    dyn = {'k': 'filter', 'f': 'dpred', 'args': rng.choice([['m'], ['m', 'id']]), 'table': [[['g'], True], [['h'], False]] if rng.random() < 0.5 else []}
+    u = {'k': 'transform', 'cls': 'DU', 'fields': {'y': {'args': ['x'], 'f': 'DU.y'}}, 'params': {}, 'cargs': {}, 'defaults': {}, 'inherit': True}
+    layers = [src, t, dyn, u] + ([{'k': 'transform', 'cls': 'DV', 'fields': {'z': {'args': ['y'], 'f': 'DV.z'}}, 'params': {}, 'cargs': {}, 'defaults': {},
+                                   'inherit': True}] if rng.random() < 0.5 else [])
+
+    def ch(xs, fl='chain'):
+        return xs[0] if len(xs) == 1 else {'k': 'chain', 'flavour': fl, 'layers': list(xs)}
+    L = layers
+    shapes = {'flat': ch(L), 'a >> (rest)': ch([L[0], ch(L[1:])]), 'a >> ((b >> c) >> rest)': ch([L[0], ch([ch(L[1:3]), ch(L[3:])])]),
+              '(a >> b) >> (c >> rest)': ch([ch(L[:2]), ch(L[2:], 'lazy')]), 'a >> ((b >> c) >> rest) by >>': ch([L[0], ch([ch(L[1:3], 'rshift'), ch(L[3:])], 'rshift')], 'rshift'),
+              '((a >> b) >> c) >> rest': ch([ch([ch(L[:2]), L[2]])] + L[3:])}
+    recs, problems = {}, []
+    for name, desc in shapes.items():
+        b = Builder(world)
+        b.ids_by_value = False
+        try:
+            p = b.layer(desc)
+        except Exception as e:
+            if name == 'flat':
+                return []
+            continue        # a block with a dataset-wide layer may be impossible to build on its own: not a re-bracketing of the pipeline
+        try:
+            f = p._compile('ids')
+            g = p._compile('y')
+            kept = f()
+            rec = (digest_of(f, []), canon(val_to_json(kept, world)))
+            if kept:
+                rec += (digest_of(g, [kept[0]]), canon(val_to_json(g(kept[0]), world)))
+            recs[name] = rec
+        except Exception as e:
+            recs[name] = ('ERR ' + exc_name(e),)
+    base = recs['flat']
+    for name, r in recs.items():
+        if r != base:
+            what = 'raises ' + r[0] if len(r) == 1 else ('values differ' if r[1::2] != base[1::2] else 'digests differ (same values)')
+            problems.append({'layers': [l['k'] for l in layers], 'shape': name,
+                             'msg': f'{[l.get("cls", l["k"]) for l in layers]} as {name}: {what} from the flat chain: {str(r)[:160]} vs {str(base)[:160]}'})
+            break
+    return problems
